@@ -524,6 +524,7 @@ func (s *Server) parseSearchScanBaseTokens(
 						return
 					}
 					s.luascripts.PutLRU(shaSum, fn.Proto)
+					s.luascripts.PutSource(shaSum, script, true)
 				}
 				t.whereevals = append(t.whereevals, whereevalT{
 					c: s, luaState: luaState, fn: fn, args: argsTbl,
